@@ -213,6 +213,8 @@ pub enum Bye {
     TcpResetWithUnreadReplies,
     TcpAfterANonUtf8Line,
     TcpHalfLineThenClose,
+    /// the client asks for far more than the socket buffers hold (600 x a 64 kB value), reads nothing for a while, closes
+    TcpSlowReader,
     WebSocket,
 }
 
@@ -222,7 +224,7 @@ pub struct TCase {
 }
 
 fn tcase_strategy() -> impl Strategy<Value = TCase> {
-    let bye = prop_oneof![2 => Just(Bye::TcpClean), 2 => Just(Bye::TcpResetWithUnreadReplies), 2 => Just(Bye::TcpAfterANonUtf8Line), 1 => Just(Bye::TcpHalfLineThenClose), 2 => Just(Bye::WebSocket)];
+    let bye = prop_oneof![2 => Just(Bye::TcpClean), 2 => Just(Bye::TcpResetWithUnreadReplies), 2 => Just(Bye::TcpAfterANonUtf8Line), 1 => Just(Bye::TcpHalfLineThenClose), 1 => Just(Bye::TcpSlowReader), 2 => Just(Bye::WebSocket)];
     prop::collection::vec(bye, 1..5).prop_map(|byes| TCase { byes })
 }
 
@@ -304,6 +306,17 @@ pub fn run_transport_case(srv: &crate::props::c10::TServer, case: &TCase) -> Out
                     }
                     Bye::TcpHalfLineThenClose => {
                         let _ = s.write_all(b"get $conn");
+                    }
+                    Bye::TcpSlowReader => {
+                        {
+                            let mut admin = Session::new();
+                            admin.auth(&srv.node);
+                            admin.send(&srv.node, &format!("use-db {} ptok", db));
+                            admin.send(&srv.node, &format!("set big {}", "x".repeat(64 * 1024)));
+                            let _ = admin.disconnect(&srv.node);
+                        }
+                        let _ = s.write_all("get big\n".repeat(600).as_bytes());
+                        crate::transport::real_sleep(std::time::Duration::from_millis(1500));
                     }
                     Bye::WebSocket => unreachable!(),
                 }
